@@ -112,6 +112,12 @@ func (ds *dataStore) moveStoreKeyUnlocked(srcKeyName, destKeyName string, dds *d
 		}
 	}
 
+	if ds == dds && srcKeyName == destKeyName {
+		// renaming a key to itself changes nothing (and is not a modification for WATCH)
+		newSk = sk
+		return
+	}
+
 	// detach sk from the source db
 	ds.data.remove(srcKeyName)
 
